@@ -331,7 +331,7 @@ func (e *c19Env) observe(b *BinSrv, setting string, expect string) (got string, 
 func TestC19(t *testing.T) {
 	r := NewReporter(t)
 	defer r.Done()
-	r.Rule("9 settings x 6 channels (flag, environment variable, --config file, PS3NETSRV_CONFIG_FILE file, ./config.ini, user config dir) alone; command-line flag vs every other channel with a conflicting value; malformed values of whitelist / max-clients / root / read-timeout on every channel; configuration files with 3000 / 5000 / 70000 bytes of comment lines around the keys; --config naming a FIFO; every case is one start of the real binary whose behaviour is observed from outside; oracle: flag wins, otherwise the single channel has its effect; malformed -> non-zero exit and never listening; distinct by (setting, channel assignment)")
+	r.Rule("9 settings x 6 channels (flag, environment variable, --config file, PS3NETSRV_CONFIG_FILE file, ./config.ini, user config dir) alone; command-line flag vs every other channel with a conflicting value; malformed values of whitelist / max-clients / root / read-timeout on every channel; 29 alternative spellings of numbers, durations and booleans (leading zeros, radix prefixes, digit separators, unit-less durations, on/yes/t) x 5 channels with the flag as reference: same effect or same refusal everywhere; configuration files with 3000 / 5000 / 70000 bytes of comment lines around the keys; --config naming a FIFO; every case is one start of the real binary whose behaviour is observed from outside; oracle: flag wins, otherwise the single channel has its effect; malformed -> non-zero exit and never listening; distinct by (setting, channel assignment)")
 	base := filepath.Join(scratchBase(), sprintf("verifh-c19-%d", os.Getpid()))
 	defer os.RemoveAll(base)
 	type tc struct {
@@ -529,6 +529,109 @@ func TestC19(t *testing.T) {
 		}
 		if i%37 == 0 {
 			r.Sample(map[string]any{"case": c.name, "assignments": assigns, "observed": got})
+		}
+	}
+	// spellings of one value: whatever a spelling means (or whether it is refused), it must mean the same on every
+	// channel - "the same observable effect". The flag channel is the reference; nothing is assumed about which
+	// spellings the program accepts.
+	type spell struct{ setting, value string }
+	var spells []spell
+	for _, v := range []string{"02", "010", "0x2", "0b10", "1_0", "+2", "2.0", "1e1", "0o2"} {
+		spells = append(spells, spell{"max-clients", v})
+	}
+	for _, v := range []string{"1000ms", "1000000000", "600", "1e9", "0x3B9ACA00", "01s", "1.0s", "1"} {
+		spells = append(spells, spell{"read-timeout", v})
+	}
+	for _, v := range []string{"on", "yes", "1", "TRUE", "t", "y", "off", "0", "enabled"} {
+		spells = append(spells, spell{"allow-write", v})
+	}
+	spells = append(spells, spell{"json-log", "on"}, spell{"json-log", "T"}, spell{"debug", "on"})
+	outcome := func(sp spell, ch string, grace time.Duration) (string, map[string]any) {
+		os.RemoveAll(base)
+		e := newC19Env(base)
+		assigns := []c19Assign{{ch, sp.setting, sp.value}}
+		rep := map[string]any{"case": sprintf("%s = %q via %s", sp.setting, sp.value, ch), "assignments": assigns}
+		b, err := e.start(assigns, 30*time.Second)
+		r.Transition(1)
+		if err != nil {
+			if b != nil && b.Exited() && b.ExitCode() != 0 {
+				return "refused", rep
+			}
+			if b != nil {
+				b.Stop()
+			}
+			return "start-failed:" + err.Error(), rep
+		}
+		defer b.Stop()
+		switch sp.setting {
+		case "max-clients":
+			var cs []*tcpClient
+			defer func() {
+				for _, c := range cs {
+					c.Close()
+				}
+			}()
+			n := 0
+			for i := 0; i < 12; i++ {
+				c, err := dialFrom(b.Addr, "", 20*time.Second)
+				if err != nil {
+					break
+				}
+				cs = append(cs, c)
+				if ok, _, _ := c.statProbe("/", grace); !ok {
+					break
+				}
+				n++
+			}
+			return sprintf("serves %d of 12 simultaneous clients", n), rep
+		case "read-timeout":
+			c, err := dialFrom(b.Addr, "", 20*time.Second)
+			if err != nil {
+				return "unreachable", rep
+			}
+			defer c.Close()
+			start := time.Now()
+			_, err = c.readN(1, grace+time.Second)
+			switch d := time.Since(start); {
+			case err == nil || isTimeout(err):
+				return "idle connection kept", rep
+			case d < 500*time.Millisecond:
+				return "idle connection cut at once", rep
+			default:
+				return "idle connection cut after about a second", rep
+			}
+		}
+		got, _ := e.observe(b, sp.setting, "true")
+		return got, rep
+	}
+	for i, sp := range spells {
+		if !r.Mine(len(cases)+i) || r.TimeUp() {
+			continue
+		}
+		name := sprintf("spelling %s=%q", sp.setting, sp.value)
+		r.State(name)
+		r.Nontrivial(name)
+		ref, _ := outcome(sp, "flag", 2*time.Second)
+		for _, ch := range []string{"env", "configflag", "cwdini", "userini"} {
+			r.Eval(1)
+			got, rep := outcome(sp, ch, 2*time.Second)
+			if got != ref {
+				// absence under load proves nothing: measure both again with a long grace
+				ref2, _ := outcome(sp, "flag", 12*time.Second)
+				got, rep = outcome(sp, ch, 12*time.Second)
+				ref = ref2
+			}
+			if strings.HasPrefix(got, "start-failed") || strings.HasPrefix(ref, "start-failed") {
+				r.Outcome("spelling:not-judged")
+				continue
+			}
+			if got != ref {
+				r.Outcome("spelling:channels-differ")
+				rep["as_flag"], rep["as_"+ch] = ref, got
+				r.Violation("C19:spelling-differs-between-channels:"+sp.setting+":"+ch, sprintf("%s: as a flag: %s; via %s: %s", name, ref, ch, got), rep)
+			} else {
+				r.Outcome("spelling:same:" + strings.SplitN(got, " ", 2)[0])
+			}
 		}
 	}
 	r.Assume("observations over real loopback TCP with one-sided waits: absence of an answer is only concluded after a grace period and re-measured with a long grace before it counts; precedence among two non-flag channels is not constrained by the property and not checked")
